@@ -37,6 +37,7 @@ typedef struct carquet_column_data {
     carquet_physical_type_t type;
     int32_t type_length;        /* For fixed-length types */
     carquet_data_ownership_t ownership;  /* OWNED or VIEW (for future zero-copy) */
+    uint8_t* byte_array_storage; /* BYTE_ARRAY: the bytes the values in `data` point to */
 } carquet_column_data_t;
 
 struct carquet_row_batch {
@@ -478,6 +479,39 @@ carquet_status_t carquet_batch_reader_next(
 
             col_data->num_values = values_read;
 
+            /* BYTE_ARRAY values point into page buffers of the column reader, which
+             * the next read on that column releases; a batch stays valid until it is
+             * freed, so it needs its own copy of the bytes. */
+            if (col_data->type == CARQUET_PHYSICAL_BYTE_ARRAY) {
+                carquet_byte_array_t* arrays = (carquet_byte_array_t*)col_data->data;
+                int64_t non_null = values_read;
+                if (def_levels) {
+                    non_null = 0;
+                    for (int64_t j = 0; j < values_read; j++) {
+                        if (def_levels[j] == max_def) non_null++;
+                    }
+                }
+                size_t total_bytes = 0;
+                for (int64_t j = 0; j < non_null; j++) {
+                    total_bytes += (size_t)arrays[j].length;
+                }
+                col_data->byte_array_storage = malloc(total_bytes ? total_bytes : 1);
+                if (!col_data->byte_array_storage) {
+                    read_error = true;
+                    free(def_levels);
+                    continue;
+                }
+                size_t at = 0;
+                for (int64_t j = 0; j < non_null; j++) {
+                    if (arrays[j].length > 0) {
+                        memcpy(col_data->byte_array_storage + at, arrays[j].data,
+                               (size_t)arrays[j].length);
+                    }
+                    arrays[j].data = col_data->byte_array_storage + at;
+                    at += (size_t)arrays[j].length;
+                }
+            }
+
             /* Build null bitmap from definition levels */
             if (def_levels && col_data->null_bitmap) {
                 int64_t full_bytes = values_read / 8;
@@ -580,6 +614,7 @@ void carquet_row_batch_free(carquet_row_batch_t* batch) {
         }
         /* null_bitmap is always owned */
         free(batch->columns[i].null_bitmap);
+        free(batch->columns[i].byte_array_storage);
     }
 
     carquet_arena_destroy(&batch->arena);
